@@ -39,6 +39,21 @@ def AT_UW(bpg, maxg):
             "vf_spec_get_free.0:%d" % (nb + 1), "ext2fs_allocate_tables.0:%d" % (maxg + 1),
             "ext2fs_allocate_group_table.0:5"]
 
+import importlib.util as _ilu, os as _os
+def _list_backups():
+    """ext2fs_list_backups() -- the generator ext2fs_create_resize_inode() walks to lay out the reserved GDT blocks of every backup
+    group -- enumerates exactly the backup groups, in order (source harness/C20/list_backups.c)"""
+    p = _os.path.join(_os.path.dirname(_os.path.abspath(__file__)), "..", "C20", "spec.py")
+    sp = _ilu.spec_from_file_location("spec_C20_for_C07", p)
+    m = _ilu.module_from_spec(sp)
+    sp.loader.exec_module(m)
+    for h in m.HARNESSES:
+        if h["name"] == "list_backups":
+            d = dict(h)
+            d["src"] = "../C20/list_backups.c"
+            return [d]
+    raise RuntimeError("C20 list_backups harness missing")
+
 HARNESSES = [
     dict(name="reserve_sb", src="reserve_sb.c",
          extra_src=["lib/ext2fs/closefs.c", "lib/ext2fs/blknum.c"],
@@ -116,6 +131,8 @@ HARNESSES = [
          backends=["default"],
          bound="bit-array bitmap of 8 blocks (first block 1), every content, every range start <= end"),
 ]
+HARNESSES += _list_backups()
+
 MANIFEST = {
     "text": "Bounded-exhaustive checks of the library kernels mke2fs composes: within each harness's stated bounds "
             "the verdict covers every geometry / group / block. The whole-tool statement (e2fsck-clean image for every "
